@@ -8,4 +8,8 @@ Definition z_ltb := Z.ltb.
 Definition n_zero : N := 0%N.      (* conv.ml.inc mentions the type N *)
 
 Extraction Language OCaml.
-Extraction "../ocaml/gen/Config.ml" cfg_build cfg_default arun afires aspec_history z_ltb n_zero.
+Definition g_init (nregs : nat) : gstate := mkG nil (repeat None nregs) 0.
+Definition g_collect (_ : nat) := sweep_unreferenced.
+
+Extraction "../ocaml/gen/Config.ml" cfg_build cfg_default arun afires aspec_history z_ltb n_zero
+  grun g_init g_collect.
